@@ -36,27 +36,28 @@ import (
 func TestMain(m *testing.M) { hx.Main(m) }
 
 type c20Spec struct {
-	Kind  string `json:"kind"`            // recv | lock | send | dur | reject | ival | given
-	Proto string `json:"proto,omitempty"` // macat's protocol option
-	Tr    string `json:"tr,omitempty"`    // tcp | ipc
-	Bind  bool   `json:"bind,omitempty"`  // macat binds and the harness dials (else macat connects)
-	AForm int    `json:"aform,omitempty"` // spelling of the address option
-	Fmt   string `json:"fmt,omitempty"`   // raw | ascii | quoted | msgpack | "" (none)
-	FForm int    `json:"fform,omitempty"` // spelling of the format option
-	Lens  []int  `json:"lens,omitempty"`  // lengths of the messages the harness sends
-	Cls   []int  `json:"cls,omitempty"`   // content class of each
-	Reply bool   `json:"reply,omitempty"` // recv: macat also has --data (replies / sends once first)
-	Sub   bool   `json:"sub,omitempty"`   // recv/sub: with --subscribe prefixes
-	DLen  int    `json:"dlen,omitempty"`  // length of --data / --file content
-	DCls  int    `json:"dcls,omitempty"`
-	DForm int    `json:"dform,omitempty"` // spelling of the data option
-	N     int    `json:"n,omitempty"`     // --count
-	IForm int    `json:"iform,omitempty"` // spelling of the zero interval
-	Var   string `json:"var,omitempty"`   // dur: which option; reject: which combination; given: empty | dash
-	Val   string `json:"val,omitempty"`   // dur: the duration text; given/dash: the option look-alike
-	ValNs int64  `json:"val_ns,omitempty"`
-	Ans   []bool `json:"ans,omitempty"` // ival: which of macat's transmissions the harness peer answers
-	RT    string `json:"rt,omitempty"`  // ival: --recv-timeout text ("" = none given)
+	Kind  string   `json:"kind"`            // recv | lock | send | dur | reject | ival | given | multi | sendto
+	Proto string   `json:"proto,omitempty"` // macat's protocol option
+	Tr    string   `json:"tr,omitempty"`    // tcp | ipc
+	Bind  bool     `json:"bind,omitempty"`  // macat binds and the harness dials (else macat connects)
+	AForm int      `json:"aform,omitempty"` // spelling of the address option
+	Fmt   string   `json:"fmt,omitempty"`   // raw | ascii | quoted | msgpack | "" (none)
+	FForm int      `json:"fform,omitempty"` // spelling of the format option
+	Lens  []int    `json:"lens,omitempty"`  // lengths of the messages the harness sends
+	Cls   []int    `json:"cls,omitempty"`   // content class of each
+	Reply bool     `json:"reply,omitempty"` // recv: macat also has --data (replies / sends once first)
+	Sub   bool     `json:"sub,omitempty"`   // recv/sub: with --subscribe prefixes
+	DLen  int      `json:"dlen,omitempty"`  // length of --data / --file content
+	DCls  int      `json:"dcls,omitempty"`
+	DForm int      `json:"dform,omitempty"` // spelling of the data option
+	N     int      `json:"n,omitempty"`     // --count
+	IForm int      `json:"iform,omitempty"` // spelling of the zero interval
+	Var   string   `json:"var,omitempty"`   // dur: which option; reject: which combination; given: empty | dash
+	Val   string   `json:"val,omitempty"`   // dur: the duration text; given/dash: the option look-alike
+	ValNs int64    `json:"val_ns,omitempty"`
+	Ans   []bool   `json:"ans,omitempty"` // ival: which of macat's transmissions the harness peer answers
+	RT    string   `json:"rt,omitempty"`  // ival: --recv-timeout text ("" = none given)
+	Eps   []string `json:"eps,omitempty"` // multi: the endpoints in command-line order, "b:TRANSPORT" (bind) / "c:TRANSPORT" (connect)
 }
 
 var lenBoundary = []int{0, 1, 2, 254, 255, 256, 257, 65534, 65535, 65536, 65537}
@@ -203,6 +204,13 @@ func TestC20(t *testing.T) {
 	for _, sp := range givenSpecs(rnd, off, r.Pick(27, 1800), r.Pick(30, 2400), r.Pick(5, 400), r.Thorough(), lens) {
 		add(sp)
 	}
+	// several endpoints of mixed transports on one command line; sends that reach their deadline (appended last again)
+	for _, sp := range multiSpecs(rnd, off, r.Pick(40, 2400)) {
+		add(sp)
+	}
+	for _, sp := range sendtoSpecs(rnd, off, r.Pick(14, 700), r.Thorough()) {
+		add(sp)
+	}
 	r.Run(cases, func(c *mon.Case) {
 		defer func() {
 			if x := recover(); x != nil {
@@ -231,6 +239,10 @@ func TestC20(t *testing.T) {
 			runIval(c, sp)
 		case "given":
 			runGiven(c, sp)
+		case "multi":
+			runMulti(c, sp)
+		case "sendto":
+			runSendto(c, sp)
 		}
 	})
 }
